@@ -90,8 +90,34 @@ let handle kind c =
         let frames = next_list c next_frame in
         let nm = next_bytes c in
         (pcs, frames, nm)) in
+    let values = next_list c next_n in
+    let state = next c in
+    let npre = next_int c in
+    let readstack = next_list c (fun c -> let k = next_bytes c in let v = next_n c in (k, v)) in
     let bad = next c in
     if bad <> "-" then diff "cache-harness" ~model:"-" ~impl:bad;
+    if npre <> 0 then diff "cache-fresh" ~model:"0" ~impl:(string_of_int npre ^ " counters in a new StackCounter");
+    (* ReadStack (countertest.ReadStackCounter), mapped or not: keyed by the EXPANDED names,
+       i.e. the uncompressed rendering of each stack's frames, with the counter's value *)
+    if List.length values = List.length stacks then begin
+      let entries = List.map2 (fun (_, fr, nm) v ->
+          let key = if blen (encode_raw name fr) <= limit then render_plain name fr else decode_stack nm in
+          (key, int_of_n v)) stacks values in
+      check_eq "readstack-keys" (fun l -> String.concat "|" (List.map show_b l))
+        (List.sort_uniq compare (List.map (fun (_, _, nm) -> decode_stack nm) stacks))
+        (List.sort_uniq compare (List.map fst readstack));
+      List.iter (fun (key, _) ->
+          let want = List.fold_left (fun acc (k, v) -> if k = key then acc + v else acc) 0 entries in
+          let dup = List.length (List.filter (fun (k, _) -> k = key) entries) > 1 in
+          match List.assoc_opt key readstack with
+          | None ->
+            prop "readstack-names-expanded"
+              (Printf.sprintf "ReadStack (%s file) has no entry for the expanded stack %s; its keys: %s" state (show_b key)
+                 (String.concat " | " (List.map (fun (k, _) -> show_b k) readstack)))
+          | Some v -> if (not dup) && int_of_n v <> want then
+              prop "readstack-values" (Printf.sprintf "ReadStack (%s file) reports %d for %s, the counter holds %d" state (int_of_n v) (show_b key) want))
+        entries
+    end else diff "cache-values" ~model:(string_of_int (List.length stacks)) ~impl:(string_of_int (List.length values));
     let symb pcs = match List.find_opt (fun (p, _, _) -> p = pcs) stacks with
       | Some (_, f, _) -> f
       | None -> [] in
